@@ -1,6 +1,8 @@
 from checks.lfht_common import *  # noqa
+from checks import cross
 
 PROP = "C09"
+BUILDS = BUILDS + cross.gp_builds()   # cross-property core jobs (checks/cross.py)
 RULE = ("(a) explicit-state enumeration of all sequences of length len over {add, del} x keys, resize(n) for every n in {0,1,2,3,4,5,8,16,"
         "ULONG_MAX,2^63,6,7} and destroy, for the order/chunk/mmap allocators and a recording custom allocator, incl. page-granular mmap "
         "tables of 64..2048 buckets: resize must return (a hang is a horizon/livelock verdict), contents are compared with the model after "
@@ -70,6 +72,11 @@ def jobs(tier):
                  {"VRT_NCPUS": 4}, workers=8))
     J.append(Job("lfht", "seq", "0,0,0,0", dict(len=2 if q else 3, keys=4, hmap=1, alpha_seq=1, nresize=12, min_partition_order=0, big=1),
                  {"VRT_NCPUS": 3}, workers=8))
+    # two adders that both request a lazy grow (both raise the resize target; the loser of the compare-and-swap must notice)
+    J.append(conc("2,0,0,0", flags=1, hmap=4, init=1, ninit=3, init_keys=0x210, prog0=prog((K_ADD, 3)), prog1=prog((K_ADD, 3), (K_LOOKUP, 0))))
+    J.append(conc_real("lfht_qsbr", {}, "1,0,0,0" if q else "2,0,0,0", hmap=1, init=4, prog0=prog((K_RESIZE, 1)), prog1=rd, **TWO))
+    J.append(conc_real("lfht_qsbr", {}, "1,0,0,0" if q else "2,0,0,0", flags=1, hmap=4, init=1, ninit=3, init_keys=0x210, prog0=prog((K_ADD, 3)),
+                       prog1=prog((K_DEL, 0), (K_LOOKUP, 1))))
     for b, env in REAL:
         rp = dict(qs_attempts=1, wait_attempts=1)
         J.append(Job(b, "seq", "0,0,0,0", dict(rp, len=5 if q else 6, keys=2, hmap=1, alpha_seq=1, nresize=12), env, workers=8))
@@ -77,6 +84,8 @@ def jobs(tier):
         J.append(conc_real(b, env, "2,0,0,0", hmap=1, init=4, prog0=prog((K_RESIZE, 1)), prog1=rd, **TWO))
         J.append(conc_real(b, env, "1,0,0,0" if q else "2,0,0,0", workers=16, hmap=1, init=1, min_partition_order=0, prog0=prog((K_RESIZE, 4)),
                            prog1=rd, **TWO))
+    # the components this property's guarantee is built on, on the real code (checks/cross.py)
+    J += cross.gp_core(tier)
     return J
 
 
